@@ -9,8 +9,15 @@ use serde_json::{Map, Value, json};
 use std::collections::{BTreeMap, BTreeSet};
 use std::io::BufReader;
 use std::sync::Arc;
+use vrp_core::construction::heuristics::{InsertionContext, RouteContext, RouteState};
 use vrp_core::models::Problem as CoreProblem;
+use vrp_core::models::Solution as CoreSolution;
+use vrp_core::models::common::{Schedule, TimeWindow};
+use vrp_core::models::problem::{Actor, JobIdDimension, Multi, Single, VehicleIdDimension};
+use vrp_core::models::solution::{Activity, Place as ActivityPlace, Route, Tour};
+use vrp_core::rosomaxa::prelude::HeuristicSolution;
 use vrp_pragmatic::checker::CheckerContext;
+use vrp_pragmatic::format::ShiftIndexDimension;
 use vrp_pragmatic::format::problem::{Matrix, Problem as ApiProblem, deserialize_matrix, deserialize_problem};
 use vrp_pragmatic::format::solution::deserialize_solution;
 use vrp_verif_harness::pragen::*;
@@ -241,7 +248,8 @@ fn verdict(ctx: &Ctx, sp: &SProblem, sol: &Value) -> Value {
 // patches (the Lean driver applies exactly the same ones)
 
 fn apply_patch(sp: &SProblem, sol: &Value, m: &Value) -> (SProblem, Value) {
-    let mut sol = sol.clone();
+    // "sol": the whole solution document is replaced (clean structural mutants re-rendered by the real writer)
+    let mut sol = m.get("sol").filter(|s| s.is_object()).unwrap_or(sol).clone();
     if let Some(set) = m.get("set").and_then(|s| s.as_object()) {
         for (k, v) in set {
             sol[k] = v.clone();
@@ -815,22 +823,403 @@ fn mutants(rng: &mut Rng, sp: &SProblem, sol: &Value) -> Vec<Value> {
 }
 
 // ---------------------------------------------------------------------------------------------------
+// clean structural breach mutants: ONE activity of a multi-task job is moved to another tour inside the core solution
+// (other shift of the same vehicle / another vehicle), every cached state is recomputed by the real code
+// (`accept_route_state`, `accept_solution_state`) and the document is written by the real writer. Schedules, loads,
+// distances and statistics of the variant are therefore consistent; only variants in which the moved activity (and
+// everything after it) is still inside its time window, loads stay within capacity and the limits hold are kept, so
+// that "a job is served by one tour" is the only rule the variant breaks.
 
-fn solve(sp: &SProblem, generations: usize) -> Option<Value> {
+/// the cost is ignored by the checker (and fractional with scaled profiles)
+fn zero_cost(sol: &mut Value) {
+    sol["statistic"]["cost"] = json!(0);
+    for t in sol["tours"].as_array_mut().unwrap() {
+        t["statistic"]["cost"] = json!(0);
+    }
+    // the unassigned list comes out of a hash map: canonical order, so that a seed reproduces its cases
+    if let Some(un) = sol["unassigned"].as_array_mut() {
+        un.sort_by_key(|u| u["jobId"].as_str().unwrap_or("").to_string());
+    }
+}
+
+fn render_ctx(problem: &CoreProblem, ctx: &InsertionContext) -> Option<Value> {
+    let solution: CoreSolution = ctx.deep_copy().into();
+    let json = solution_json(problem, &solution).ok()?;
+    let mut sol = simplify_solution(&json);
+    zero_cost(&mut sol);
+    Some(sol)
+}
+
+fn actor_key(actor: &Actor) -> (String, usize) {
+    (actor.vehicle.dimens.get_vehicle_id().cloned().unwrap_or_default(), actor.vehicle.dimens.get_shift_index().copied().unwrap_or(0))
+}
+
+/// a fresh tour of the route's actor with the route's departure time and all its job activities but the one at `skip`
+/// (the public `Tour` API removes whole jobs only)
+fn tour_without(route: &Route, skip: usize) -> Tour {
+    let mut tour = Tour::new(route.actor.as_ref());
+    if let (Some(a), Some(b)) = (tour.get_mut(0), route.tour.start()) {
+        a.schedule = b.schedule.clone();
+    }
+    for (i, a) in route.tour.all_activities().enumerate() {
+        if i != skip && a.job.is_some() {
+            tour.insert_last(a.deep_copy());
+        }
+    }
+    tour
+}
+
+/// route context over the tour with every cached state computed from scratch by the real code
+fn fresh_route(problem: &CoreProblem, actor: Arc<Actor>, tour: Tour) -> RouteContext {
+    let mut rc = RouteContext::new_with_state(Route { actor, tour }, RouteState::default());
+    problem.goal.accept_route_state(&mut rc);
+    rc
+}
+
+/// every activity after the start is reached not later than its time window (or the shift) ends
+fn time_feasible(rc: &RouteContext) -> bool {
+    rc.route().tour.all_activities().skip(1).all(|a| a.schedule.arrival <= a.place.time.end)
+}
+
+fn sol_tour<'a>(sol: &'a Value, key: &(String, usize)) -> Option<&'a Value> {
+    sol["tours"].as_array()?.iter().find(|t| t["vehicleId"] == json!(key.0) && t["shiftIndex"] == json!(key.1))
+}
+
+fn tour_has_job(t: &Value, id: &str) -> bool {
+    t["stops"].as_array().unwrap().iter().any(|s| acts_of(s).iter().any(|a| a["jobId"] == id && is_job_type(a["type"].as_str().unwrap_or(""))))
+}
+
+fn unassigned_ids(sol: &Value) -> Vec<String> {
+    let mut ids: Vec<String> =
+        sol["unassigned"].as_array().map(|u| u.iter().map(|x| x["jobId"].as_str().unwrap_or("").to_string()).collect()).unwrap_or_default();
+    ids.sort();
+    ids
+}
+
+/// document-level part of the cleanness filter: nothing but the two touched tours changed, the job is in exactly these
+/// two tours, reported loads within capacity, limits of the vehicle type respected
+fn clean_document(sp: &SProblem, base: &Value, sol: &Value, job: &str, from: &(String, usize), to: &(String, usize)) -> Result<(), &'static str> {
+    if !in_fragment(sol) {
+        return Err("outside_fragment");
+    }
+    if hits_open_deviation(sp, sol).is_some() {
+        return Err("open_deviation_shape");
+    }
+    if unassigned_ids(base) != unassigned_ids(sol) || base["violations"] != sol["violations"] {
+        return Err("unassigned_changed");
+    }
+    let tours = sol["tours"].as_array().unwrap();
+    let base_tours = base["tours"].as_array().unwrap();
+    let key_of = |t: &Value| (t["vehicleId"].as_str().unwrap().to_string(), t["shiftIndex"].as_u64().unwrap() as usize);
+    let expected = base_tours.len() + if sol_tour(base, to).is_none() { 1 } else { 0 };
+    if tours.len() != expected {
+        return Err("tour_count");
+    }
+    for t in base_tours {
+        let k = key_of(t);
+        if k != *from && k != *to && sol_tour(sol, &k) != Some(t) {
+            return Err("other_tour_changed");
+        }
+    }
+    for t in tours {
+        let k = key_of(t);
+        if tour_has_job(t, job) != (k == *from || k == *to) {
+            return Err("job_not_in_two_tours");
+        }
+        if k != *from && k != *to {
+            continue;
+        }
+        let Some(vt) = vehicle_type_index(sp, &k.0) else { return Err("no_vehicle_type") };
+        let v = &sp.vehicles[vt];
+        for (d, cap) in v.capacity.iter().enumerate() {
+            if stop_loads_max(t, d) > *cap {
+                return Err("over_capacity");
+            }
+        }
+        // a tour of a shift with breaks must carry one (whether a break is due is a rule of its own)
+        let shift_breaks = v.shifts.get(k.1).map(|s| !s.breaks.is_empty()).unwrap_or(false);
+        let has_break = t["stops"].as_array().unwrap().iter().any(|s| acts_of(s).iter().any(|a| a["type"] == "break"));
+        if shift_breaks && !has_break {
+            return Err("break_rule_in_play");
+        }
+        let has_end = v.shifts.get(k.1).map(|s| s.end.is_some()).unwrap_or(true);
+        let size = tour_job_activity_count(t).saturating_sub(if has_end { 2 } else { 1 });
+        if v.max_distance.is_some_and(|m| t["statistic"]["distance"].as_i64().unwrap_or(i64::MAX) > m)
+            || v.max_duration.is_some_and(|m| t["statistic"]["duration"].as_i64().unwrap_or(i64::MAX) > m)
+            || v.tour_size.is_some_and(|m| size > m)
+        {
+            return Err("over_limit");
+        }
+    }
+    Ok(())
+}
+
+/// moves the activity `ai` of route `ri` to a tour of `actor`; None when no clean placement was found
+#[allow(clippy::too_many_arguments)]
+fn try_move(
+    rng: &mut Rng,
+    sp: &SProblem,
+    problem: &Arc<CoreProblem>,
+    ctx0: &InsertionContext,
+    base: &Value,
+    (ri, ai): (usize, usize),
+    actor: &Arc<Actor>,
+    job_id: &str,
+    why: &mut BTreeMap<String, usize>,
+) -> Option<Value> {
+    let mut note = |w: &str| *why.entry(w.to_string()).or_default() += 1;
+    let src = &ctx0.solution.routes[ri];
+    let single: Arc<Single> = src.route().tour.get(ai)?.job.clone()?;
+    let from = actor_key(src.route().actor.as_ref());
+    let to = actor_key(actor.as_ref());
+    let src_rc = fresh_route(problem, src.route().actor.clone(), tour_without(src.route(), ai));
+    if !time_feasible(&src_rc) {
+        note("source_infeasible");
+        return None;
+    }
+    let existing = ctx0.solution.routes.iter().position(|rc| actor_key(rc.route().actor.as_ref()) == to);
+    let target_tour = match existing {
+        Some(ti) => ctx0.solution.routes[ti].route().tour.deep_copy(),
+        None => Tour::new(actor.as_ref()),
+    };
+    let start = target_tour.start()?;
+    let mut departures = vec![start.schedule.departure];
+    if start.place.time.start < start.schedule.departure {
+        departures.push(start.place.time.start);
+    }
+    let mut positions: Vec<usize> = (1..=target_tour.job_activity_count() + 1).collect();
+    rng.shuffle(&mut positions);
+    positions.truncate(8);
+    let mut found: Option<RouteContext> = None;
+    'search: for dep in departures.iter() {
+        for pos in positions.iter() {
+            for (pi, place) in single.places.iter().enumerate() {
+                let Some(location) = place.location else { continue };
+                for span in place.times.iter() {
+                    let time: TimeWindow = span.to_time_window(*dep);
+                    let mut tour = target_tour.deep_copy();
+                    tour.get_mut(0)?.schedule.departure = *dep;
+                    tour.insert_at(
+                        Activity {
+                            place: ActivityPlace { idx: pi, location, duration: place.duration, time },
+                            schedule: Schedule::new(0., 0.),
+                            job: Some(single.clone()),
+                            commute: None,
+                        },
+                        *pos,
+                    );
+                    let rc = fresh_route(problem, actor.clone(), tour);
+                    if time_feasible(&rc) {
+                        found = Some(rc);
+                        break 'search;
+                    }
+                }
+            }
+        }
+    }
+    let Some(dst_rc) = found else {
+        note("no_time_feasible_place");
+        return None;
+    };
+    let mut ctx = ctx0.deep_copy();
+    ctx.solution.routes[ri] = src_rc;
+    let di = match existing {
+        Some(ti) => {
+            ctx.solution.routes[ti] = dst_rc;
+            ti
+        }
+        None => {
+            // the vehicle's other shift (or the other vehicle) drives no tour yet: take its route from the registry
+            if ctx.solution.registry.get_route(actor).is_none() {
+                note("actor_in_use");
+                return None;
+            }
+            ctx.solution.routes.push(dst_rc);
+            ctx.solution.routes.len() - 1
+        }
+    };
+    // routes touched through `route_mut` are stale: all their cached state is recomputed, then the solution state
+    for i in [ri, di] {
+        let _ = ctx.solution.routes[i].route_mut();
+        problem.goal.accept_route_state(&mut ctx.solution.routes[i]);
+    }
+    problem.goal.accept_solution_state(&mut ctx.solution);
+    if ctx.solution.routes.len() <= ri.max(di) || !ctx.solution.routes.iter().all(time_feasible) {
+        note("infeasible_after_accept");
+        return None;
+    }
+    let sol = render_ctx(problem, &ctx)?;
+    match clean_document(sp, base, &sol, job_id, &from, &to) {
+        Ok(()) => Some(sol),
+        Err(w) => {
+            note(w);
+            None
+        }
+    }
+}
+
+/// clean split mutants of one solved problem: (class, job, target tour, re-rendered solution)
+fn clean_splits(
+    rng: &mut Rng,
+    sp: &SProblem,
+    problem: &Arc<CoreProblem>,
+    solution: CoreSolution,
+    base: &Value,
+    caps: (usize, usize),
+    why: &mut BTreeMap<String, usize>,
+) -> Vec<Value> {
+    let ctx0 = InsertionContext::new_from_solution(problem.clone(), (solution, None), quiet_env());
+    // the round trip solution -> context -> solution must reproduce the solver's own document
+    match render_ctx(problem, &ctx0) {
+        Some(again) if again["tours"] == base["tours"] && again["statistic"] == base["statistic"] && unassigned_ids(&again) == unassigned_ids(base) => {}
+        _ => {
+            *why.entry("round_trip_differs".into()).or_default() += 1;
+            return vec![];
+        }
+    }
+    let mut cands: Vec<(usize, usize, String)> = vec![];
+    for (ri, rc) in ctx0.solution.routes.iter().enumerate() {
+        for (ai, a) in rc.route().tour.all_activities().enumerate() {
+            let Some(multi) = a.job.as_ref().and_then(|single| Multi::roots(single)) else { continue };
+            let Some(id) = multi.dimens.get_job_id().cloned() else { continue };
+            let Some(job) = sp.jobs.iter().find(|j| j.id == id && j.tasks.len() >= 2) else { continue };
+            // jobs of a group have a rule of their own ("one tour per group")
+            if job.group.is_some() {
+                continue;
+            }
+            // goods of a pickup-and-delivery job travel inside the tour: with the pickup in one tour and the delivery in
+            // another the loads are wrong as well (goods left on board at the end / a negative load), so such a split is
+            // never a single breach unless the job carries nothing
+            let has = |k: &str| job.tasks.iter().any(|t| t.kind == k);
+            if has("pickup") && has("delivery") && job.tasks.iter().any(|t| t.demand.iter().any(|d| *d != 0)) {
+                *why.entry("pickup_delivery_goods_split".into()).or_default() += 1;
+                continue;
+            }
+            cands.push((ri, ai, id));
+        }
+    }
+    rng.shuffle(&mut cands);
+    let mut out = vec![];
+    let (mut n_same, mut n_other) = (0, 0);
+    for (ri, ai, id) in cands {
+        let from = actor_key(ctx0.solution.routes[ri].route().actor.as_ref());
+        let same: Vec<Arc<Actor>> = problem.fleet.actors.iter().filter(|a| actor_key(a).0 == from.0 && actor_key(a).1 != from.1).cloned().collect();
+        let mut other: Vec<Arc<Actor>> = problem.fleet.actors.iter().filter(|a| actor_key(a).0 != from.0).cloned().collect();
+        rng.shuffle(&mut other);
+        other.truncate(2);
+        let act = ctx0.solution.routes[ri].route().tour.get(ai).unwrap();
+        let tag = base_activity_label(sp, &id, act);
+        for (cls, actor) in same.iter().map(|a| ("clean_split_same_vehicle", a)).chain(other.iter().map(|a| ("clean_split_other_vehicle", a))) {
+            let n = if cls == "clean_split_same_vehicle" { &mut n_same } else { &mut n_other };
+            let cap = if cls == "clean_split_same_vehicle" { caps.0 } else { caps.1 };
+            if *n >= cap {
+                continue;
+            }
+            if let Some(sol) = try_move(rng, sp, problem, &ctx0, base, (ri, ai), actor, &id, why) {
+                *n += 1;
+                let to = actor_key(actor.as_ref());
+                out.push(json!({"cls": cls, "site": format!("{id}.{tag}:{}#{}->{}#{}", from.0, from.1, to.0, to.1),
+                                "job": id, "to": [to.0, to.1], "sol": sol}));
+            }
+        }
+    }
+    out
+}
+
+/// "<task kind><place index>" of the moved activity (for the site name only)
+fn base_activity_label(sp: &SProblem, id: &str, act: &Activity) -> String {
+    let job = sp.jobs.iter().find(|j| j.id == id);
+    let multi = act.job.as_ref().and_then(|s| Multi::roots(s));
+    let ti = multi.and_then(|m| m.jobs.iter().position(|s| act.job.as_ref().is_some_and(|x| Arc::ptr_eq(s, x)))).unwrap_or(0);
+    let kind = job.and_then(|j| j.tasks.get(ti)).map(|t| t.kind.clone()).unwrap_or_default();
+    format!("{kind}{ti}")
+}
+
+/// the relations a clean split leaves in force: those that do not name the split job, and no `strict` run of the
+/// tour that received the activity (the insertion may fall inside the run)
+fn relations_after_split(sp: &SProblem, m: &Value) -> Vec<SRelation> {
+    let job = m["job"].as_str().unwrap_or("");
+    let to = (m["to"][0].as_str().unwrap_or("").to_string(), m["to"][1].as_u64().unwrap_or(0) as usize);
+    sp.relations
+        .iter()
+        .filter(|r| !r.jobs.iter().any(|j| j == job))
+        .filter(|r| !(r.kind == "strict" && r.vehicle_id == to.0 && r.shift_index.unwrap_or(0) == to.1))
+        .cloned()
+        .collect()
+}
+
+fn solve(sp: &SProblem, generations: usize, vseed: u64, caps: (usize, usize)) -> Option<(Value, Vec<Value>, BTreeMap<String, usize>)> {
     let sp = sp.clone();
     isolated(1, move || {
         let problem = sp.read().ok()?;
-        let (_, json) = solve_default(problem, quiet_env(), generations).ok()?;
+        let (solution, json) = solve_default(problem.clone(), quiet_env(), generations).ok()?;
         let mut sol = simplify_solution(&json);
-        // the cost is ignored by the checker (and fractional with scaled profiles)
-        sol["statistic"]["cost"] = json!(0);
-        for t in sol["tours"].as_array_mut().unwrap() {
-            t["statistic"]["cost"] = json!(0);
-        }
-        Some(sol)
+        zero_cost(&mut sol);
+        let mut why = BTreeMap::new();
+        let clean = if caps == (0, 0) || !in_fragment(&sol) || hits_open_deviation(&sp, &sol).is_some() {
+            vec![]
+        } else {
+            let mut rng = Rng::new(vseed);
+            std::panic::catch_unwind(std::panic::AssertUnwindSafe(|| clean_splits(&mut rng, &sp, &problem, solution, &sol, caps, &mut why)))
+                .unwrap_or_default()
+        };
+        Some((sol, clean, why))
     })
     .ok()
     .flatten()
+}
+
+/// problems for the clean split stream: a vehicle type with two shifts, multi-task jobs (pickup+delivery and, for loads
+/// that stay physical in both tours, all-delivery / all-pickup jobs) whose places can mostly be visited in either shift
+fn split_cfg(rng: &mut Rng) -> GenCfg {
+    let mut c = GenCfg::basic();
+    c.jobs = (6, 12);
+    c.types = (1, 2);
+    c.vehicles_per_type = (1, 2);
+    c.multi_jobs = true;
+    c.tags = true;
+    c.multi_shift = true;
+    c.multi_dim = rng.chance(1, 3);
+    c.two_profiles = rng.chance(1, 4);
+    c.limits = rng.chance(1, 5);
+    c.alt_places = rng.chance(1, 4);
+    c.reloads = rng.chance(1, 6);
+    c
+}
+
+fn prepare_split_problem(rng: &mut Rng, sp: &mut SProblem) {
+    const DAY: i64 = 2500;
+    if !sp.vehicles.iter().any(|v| v.shifts.len() >= 2) {
+        let v = &mut sp.vehicles[0];
+        let mut s = v.shifts[0].clone();
+        s.start_earliest += DAY;
+        s.start_latest = s.start_latest.map(|t| t + DAY);
+        if let Some(e) = s.end.as_mut() {
+            e.latest += DAY;
+            e.earliest = e.earliest.map(|t| t + DAY);
+        }
+        for b in s.breaks.iter_mut().filter(|b| !b.offset) {
+            b.time = (b.time.0 + DAY, b.time.1 + DAY);
+        }
+        v.shifts.push(s);
+    }
+    for j in sp.jobs.iter_mut().filter(|j| j.tasks.len() >= 2) {
+        // all deliveries / all pickups: the goods of every task are loaded (unloaded) at the tour's start (end), the loads
+        // of a split stay physical in both tours; a pickup-and-delivery job only when it carries nothing
+        match rng.below(8) {
+            0..=3 => j.tasks.iter_mut().for_each(|t| t.kind = "delivery".into()),
+            4 | 5 => j.tasks.iter_mut().for_each(|t| t.kind = "pickup".into()),
+            6 => j.tasks.iter_mut().for_each(|t| t.demand.iter_mut().for_each(|d| *d = 0)),
+            _ => {}
+        }
+        for p in j.tasks.iter_mut().flat_map(|t| t.places.iter_mut()) {
+            match rng.below(4) {
+                0 | 1 => p.tws.clear(),
+                2 => p.tws.iter_mut().for_each(|w| *w = (w.0 + DAY, w.1 + DAY)),
+                _ => {}
+            }
+        }
+    }
 }
 
 fn gen_cases(rng: &mut Rng, tier: Tier) -> Vec<Value> {
@@ -841,21 +1230,34 @@ fn gen_cases(rng: &mut Rng, tier: Tier) -> Vec<Value> {
     }
     let mut cases = vec![];
     let mut skipped = BTreeMap::<String, usize>::new();
+    // second stream: problems made for clean structural splits (two shifts of one vehicle, multi-task jobs)
+    let n_split = if tier == Tier::Thorough { 200 } else { 16 };
+    let mut clean_why = BTreeMap::<String, usize>::new();
+    let mut clean_count = BTreeMap::<String, usize>::new();
     let mut i = 0;
     let mut attempts = 0;
-    while cases.len() < n && attempts < n * 4 {
+    while cases.len() < n + n_split && attempts < (n + n_split) * 4 {
         attempts += 1;
-        let cfg = feature_cfg(rng, i);
+        let split_stream = cases.len() >= n;
+        let cfg = if split_stream { split_cfg(rng) } else { feature_cfg(rng, i) };
         let mut sp = gen_problem(rng, &cfg);
         let raw = std::env::var("C12_PROBE").map(|v| v == "raw").unwrap_or(false);
         if !raw {
             restrict_problem(rng, &mut sp);
         }
+        if split_stream {
+            prepare_split_problem(rng, &mut sp);
+        }
         let generations = *rng.pick(&[3usize, 10, 30]);
-        let Some(sol) = solve(&sp, generations) else {
+        // (same vehicle other shift, other vehicle) clean splits kept per case; their random choices do not advance `rng`
+        let caps = if probe { (0, 0) } else if split_stream { (6, 3) } else { (3, 2) };
+        let Some((sol, clean, why)) = solve(&sp, generations, rng.0 ^ 0xC12C_12C1, caps) else {
             *skipped.entry("unsolved".into()).or_default() += 1;
             continue;
         };
+        for (k, v) in why {
+            *clean_why.entry(k).or_default() += v;
+        }
         if !in_fragment(&sol) {
             *skipped.entry("outside_fragment".into()).or_default() += 1;
             if probe {
@@ -898,11 +1300,21 @@ fn gen_cases(rng: &mut Rng, tier: Tier) -> Vec<Value> {
         if rng.chance(1, 2) {
             sp.relations = derive_relations(rng, &sp, &sol);
         }
-        let muts = if probe { vec![] } else { mutants(rng, &sp, &sol) };
-        cases.push(json!({"k": "solution", "gens": generations, "sp": sp, "sol": sol, "muts": muts}));
+        let mut muts = if probe { vec![] } else { mutants(rng, &sp, &sol) };
+        for mut m in clean {
+            let rel = relations_after_split(&sp, &m);
+            if rel.len() != sp.relations.len() {
+                m["rel"] = json!(rel);
+            }
+            *clean_count.entry(m["cls"].as_str().unwrap().to_string()).or_default() += 1;
+            muts.push(m);
+        }
+        cases.push(json!({"k": "solution", "stream": if split_stream { "split" } else { "features" }, "gens": generations,
+                          "sp": sp, "sol": sol, "muts": muts}));
     }
-    if probe {
+    if probe || std::env::var("C12_STATS").is_ok() {
         eprintln!("skipped: {skipped:?}");
+        eprintln!("clean splits: {clean_count:?}; dropped candidates: {clean_why:?}");
     }
     cases
 }
